@@ -71,9 +71,9 @@ namespace RecInt
         rmint(const rmint<K, MGA>& c) : Value(get_ruint(c)) { reduction(*this); }
         template <typename T, __RECINT_IS_UNSIGNED(T, int) = 0> rmint(const T b) : Value(b) { mod_n(Value, p); }
         template <typename T, __RECINT_IS_SIGNED(T, int) = 0>   rmint(const T b) : Value((b < 0)? -b : b)
-        { mod_n(Value, p); if (b < 0) sub(Value, p, Value); }
+        { mod_n(Value, p); if (b < 0) neg(*this); }
         rmint(const double& b) : Value((b < 0)? -b : b)
-        { mod_n(Value, p); if (b < 0) sub(Value, p, Value); }
+        { mod_n(Value, p); if (b < 0) neg(*this); }
 
         rmint<K, MGI>& random();
 
